@@ -5,7 +5,11 @@ source by Gen/Stack.lean (regenerated every run) and by the `depth` corresponden
 scan of the source vs the hand-annotated Lean graph).
 Measured part (clearly labelled; not a proof): every recursion shape is run in the real `naija` binary
 in its own child process with an 8 MiB stack; the stack the binary really needs is bisected with
-`ulimit -s`; crash thresholds of the unguarded stages are searched in the thorough tier."""
+`ulimit -s`; crash thresholds of the unguarded stages are searched in the thorough tier.
+Both tiers run, in the debug AND the release binary: every nesting construct as a bare run at depths no
+frame size survives unprobed (BARE_DEPTHS), and the composite shapes "recursion THEN tower"
+(c08_shapes.composite): a recursion driven to a swept fraction of the depth at which it alone trips the
+probe, at whose bottom a tower of nested statements / expressions as high as the front end accepts runs."""
 import json
 import os
 import re
@@ -33,6 +37,17 @@ DEEP = {"debug": 20000, "release": 150000}
 LADDER = {"debug": [2000, 3000], "release": [15000, 35000]}
 SMALL_NEST = 200
 HUGE_CHAIN = 1000000
+# bare runs: depths that exceed what any per-frame size could survive on 8 MiB without a probe (5 bytes per level
+# at the largest); the parser's probe answers all of them with `Program nest too deep` in a few 100 ms
+BARE_DEPTHS = {"quick": [25000, 100000, 400000], "thorough": [25000, 100000, 400000, 1600000]}
+# composite shapes: fractions of the recursion's own trip level at which the tower starts (all below it: the
+# tower is reached), recursion shapes of the quick tier (through a non-literal condition, through an argument,
+# through nested loop bodies and blocks, plain), cap on expression towers (the resolver is quadratic in the depth
+# of an expression: 14000 levels pass the release front end but take seconds)
+COMP_FRACTIONS = [0, .1, .2, .3, .4, .5, .6, .7, .8, .88, .94, .98]
+COMP_RT_QUICK = ["cond_if", "arg_user", "blocks_loops", "direct"]
+COMP_ENV_FRACTIONS = [.5, .7, .88, .98]
+TOWER_CAP = {"stmt": 65536, "expr": 2048}
 DATA_DEEP = {"debug": 40000, "release": 75000}
 DATA_CHUNK_DEEP = {"debug": 200, "release": 1000}
 
@@ -190,6 +205,7 @@ def run(ck: Check):
         ck.gen_tables()
         ck.lean_obligations(["NaijaVerif.Props.C08"])
         ck.build_driver(["Depth"])
+        unprobed_descents(ck)
     # ---- structural correspondence (scan of the source vs the Lean graph)
     nwalks = 300 if ck.tier == "quick" else 20000
     with phase(ck, "correspondence"):
@@ -203,22 +219,31 @@ def run(ck: Check):
             ck.count("walks")
     # ---- behaviour on the real binary
     profiles = ["debug"] if ck.tier == "quick" else ["debug", "release"]
+    both = ["debug", "release"]        # bare runs and composite shapes: both binaries in both tiers
     with phase(ck, "build_cli"):
-        bins = {p: ck.build_cli(p) for p in profiles}
-    measured, nest_out, data_out, crashes = {}, {}, {}, []
+        bins_all = {p: ck.build_cli(p) for p in both}
+        bins = {p: bins_all[p] for p in profiles}
+    measured, nest_out, data_out, comp_out, crashes = {}, {}, {}, {}, []
     for prof in profiles:
         with phase(ck, "runtime_shapes"):
             measured[prof] = runtime_shapes(ck, bins[prof], prof, crashes)
         with phase(ck, "nest_shapes"):
-            nest_out[prof] = nest_shapes(ck, bins[prof], prof, crashes)
+            nest_out[prof] = nest_shapes(ck, bins[prof], prof, crashes, extra=BARE_DEPTHS[ck.tier])
         with phase(ck, "data_shapes"):
             data_out[prof] = data_shapes(ck, bins[prof], prof, crashes)
         with phase(ck, "env_shapes"):
             measured[prof]["__environment__"] = env_shapes(ck, bins[prof], prof, crashes)
+    for prof in both:
+        if prof not in profiles:
+            with phase(ck, "nest_shapes"):
+                nest_out[prof] = nest_shapes(ck, bins_all[prof], prof, crashes, only=BARE_DEPTHS[ck.tier])
+        with phase(ck, "composite_shapes"):
+            comp_out[prof] = composite_shapes(ck, bins_all[prof], prof, crashes, measured.setdefault(prof, {}))
     ck.extra_cov["measured_frame_costs"] = measured
     ck.extra_cov["nest_outcomes"] = nest_out
     ck.extra_cov["data_outcomes"] = data_out
-    arithmetic(ck, measured)
+    ck.extra_cov["composite_outcomes"] = comp_out
+    arithmetic(ck, {p: m for p, m in measured.items() if m})
     with phase(ck, "guard_thresholds"):
         gnames = list(S.NEST) if ck.tier == "thorough" else ["paren", "array", "block", "if", "fndef", "call_args",
                                                               "binary_chain", "method_chain", "index_chain"]
@@ -238,6 +263,11 @@ def run(ck: Check):
     # ---- report
     seen = set()
     from common import match_known
+    # of several crashes with one signature the shallowest is reported (signatures in order of first appearance)
+    order = {}
+    for c in crashes:
+        order.setdefault(json.dumps(c["signature"], sort_keys=True), len(order))
+    crashes.sort(key=lambda c: (order[json.dumps(c["signature"], sort_keys=True)], c["depth"]))
     for c in crashes:
         key = json.dumps(c["signature"], sort_keys=True)
         if key in seen:
@@ -245,9 +275,11 @@ def run(ck: Check):
         seen.add(key)
         if len(ck.violations) >= 6 and match_known(ck.pid, c) is None:
             continue        # further unlisted crashes are in coverage.crash_signatures; six replay files are enough
+        extra = {k: c[k] for k in ("generator", "params", "program_head", "also_crashing") if k in c}
         ck.report_violation({"kind": "native-stack-overflow", "signature": c["signature"], "shape": c["shape"],
                              "depth": c["depth"], "profile": c["profile"], "cut": c.get("cut", "none"),
-                             "env": c.get("env", "default"),
+                             "env": c.get("env", "default"), **extra,
+                             "also_broken": [b.get("what") or b.get("theorems") for b in ck.broken[:8]],
                              "env_spec": {"large": f"{ENV_VARS} variables NV_PAD_nn of {ENV_VAR_BYTES} bytes", "empty": "env -i"},
                              "outcomes": c["outcomes"], "what": c["what"],
                              "replay_cmd": "./check C08 --replay <this file>"})
@@ -263,6 +295,30 @@ def run(ck: Check):
                                  "requests": [d["request"] for d in ck.disagreements[:5]]},
                                 no_input_found=True)
     return ck.finish()
+
+
+def unprobed_descents(ck):
+    """Names what `exec_stmt_descents_probed_on_every_path` (Props/C08.lean) and the `arm` requests of the depth
+    correspondence decide: an arm of `exec_stmt` that can reach the body of a nested statement on a path without a
+    probe, and the function on that path that branches before it probes."""
+    import sys
+    from common import REPO, VERIF
+    sys.path.insert(0, os.path.join(VERIF, "extract"))
+    try:
+        import gen_depth
+        bad = gen_depth.unprobed_descents(REPO)
+    except Exception as e:     # the extractor's own failure is already an `extractor-broken` obligation
+        ck.notes.append(f"unprobed_descents: {type(e).__name__}: {e}")
+        return
+    for arm, chain in bad:
+        via = " -> ".join(chain)
+        ck.broken.append({"kind": "unprobed-descent", "theorem": "exec_stmt_descents_probed_on_every_path",
+                          "what": f"the `{arm.split('::')[-1]}` arm of exec_stmt can reach exec_block_with_flow on a path without a "
+                                  f"stack probe: on the straight-line prefix of {via} no guard function (check_stack) is certain to be "
+                                  f"called -- `{chain[-1]}` branches (or returns) before its first probe, so the cycle "
+                                  "exec_block_with_flow -> exec_stmt -> exec_block_with_flow is probe-free for nested statements "
+                                  "taking that path (cond_arm_probe_is_necessary: no depth bound then); the composite shapes "
+                                  "(recursion THEN tower) search for the crashing program"})
 
 
 def witness_of(sig):
@@ -362,7 +418,8 @@ def runtime_shapes(ck, binary, prof, crashes):
         elif r["unbounded"] != SOE:
             ck.broken.append({"kind": "shape-outcome", "what": f"{name} ({prof}): expected Stack overflow, got {r['unbounded']}"})
     # per-level native cost for a few shapes: the recursion level at which the guard fires
-    sample = names if ck.tier == "thorough" else ["direct", "mutual2", "arg_user", "cond_if", "array_literal", "method_push_index"]
+    sample = names if ck.tier == "thorough" else ["direct", "mutual2", "arg_user", "cond_if", "array_literal", "method_push_index",
+                                                  "blocks_loops"]
     for name, lv in pmap(lambda n: (n, trip_level(binary, S.RT[n]["src"])), [n for n in sample if out[n]["small"] == "ok"]):
         if lv:
             out[name]["levels_at_trip"] = lv
@@ -514,19 +571,23 @@ def nest_signature(name, stage):
     return {"defect": defect, "stage": stage, "construct": con}
 
 
-def nest_shapes(ck, binary, prof, crashes):
+def nest_shapes(ck, binary, prof, crashes, extra=(), only=None):
+    """Every nest shape at the ladder depths of the profile plus `extra`; or at the depths `only`."""
     names = list(S.NEST)
-    depths = [SMALL_NEST] + LADDER[prof] + [DEEP[prof]]
+    depths = sorted(set([SMALL_NEST] + LADDER[prof] + [DEEP[prof]] + list(extra))) if only is None else list(only)
     # chain constructs also at a million links (a few MB of source): small-frame helpers over loop-built chains
-    huge = [(n, HUGE_CHAIN) for n in names if n in S.CHAINS]
+    huge = [(n, HUGE_CHAIN) for n in names if n in S.CHAINS and HUGE_CHAIN not in depths] if only is None else []
 
     def job(a):
         name, depth = a
         stage, full, src = attribute_stage(binary, name, depth)
         return name, depth, stage, full, src
 
+    # the lexer is iterative and answers every `1.a` with a rendered diagnostic: seconds past 10^5 of them
+    todo = [(n, d) for n in names for d in depths if not (S.NEST[n]["construct"] == "invalid_number" and d > 100000)] + huge
+    todo.sort(key=lambda a: (-(a[1] * (30 if S.NEST[a[0]]["construct"] == "invalid_number" else 1)), a[0]))   # long runs first
     out = {}
-    for name, depth, stage, full, src in pmap(job, [(n, d) for n in names for d in depths] + huge):
+    for name, depth, stage, full, src in pmap(job, todo):
         ck.evaluations += 1
         out.setdefault(name, {})[str(depth)] = full if stage is None else f"{CRASH}@{stage}"
         ck.count(f"nest_{prof}_{full if stage is None else 'crash_' + stage}")
@@ -572,6 +633,155 @@ def data_shapes(ck, binary, prof, crashes):
                                 "what": f"a value nested {DATA_DEEP[prof]} deep overflows the native stack in an unguarded "
                                         f"value helper ({S.DATA[name]['construct']}, {prof})"})
     return out
+
+
+# ------------------------------------------------------------------------------------------------
+def front_max(binary, kind, found):
+    """Largest height of tower `kind` with which the program still reaches run time (no syntax / semantic
+    error), bisected to 2 %: the front end's own probes (`Program nest too deep`) bound it, differently per
+    profile.  A native crash on the way is collected in `found` (and counts as not accepted)."""
+    cap = TOWER_CAP["expr" if S.TOWERS[kind]["expr"] else "stmt"]
+
+    def accepted(n):
+        o = run_src(binary, S.composite("direct", kind, 0, n))[0]
+        if o == CRASH:
+            found.append(("direct", kind, 0, n, "default"))
+        return o != CRASH and o != "timeout" and not o.startswith("diag:syntax") and not o.startswith("diag:semantic")
+
+    lo, hi = 8, cap
+    if accepted(hi):
+        return hi
+    if not accepted(lo):
+        return None
+    while hi - lo > max(1, lo // 50):
+        mid = (lo + hi) // 2
+        if accepted(mid):
+            lo = mid
+        else:
+            hi = mid
+    return lo
+
+
+_PAT = {"ok": ".", SOE: "S", CRASH: "X", "timeout": "T"}
+
+
+def composite_shapes(ck, binary, prof, crashes, measured):
+    """Recursion THEN tower (c08_shapes.composite): every recursion shape of the tier x every tower kind, the
+    tower as high as the front end of this profile accepts (bisected once) and half of that, the recursion
+    driven to COMP_FRACTIONS of the level at which it alone trips the probe; the highest towers also with
+    ~1.4 MiB of environment.  Every run must end normally, in `Stack overflow` or in an ordinary diagnostic.
+    For one recursion shape the stack the binary needs is bisected as well (half-height towers right below
+    the budget line): an unprobed descent shows there as overshoot long before it overruns 8 MiB."""
+    full = ck.tier == "thorough"
+    rts = list(S.COMPOSITE_RT) if full else list(COMP_RT_QUICK)
+    # quick tier: expression towers (probed in every eval_expr frame, and capped) only in the debug binary
+    kinds = [k for k in S.TOWERS if full or prof == "debug" or not S.TOWERS[k]["expr"]]
+    found = []
+    fm = dict(zip(kinds, pmap(lambda k: front_max(binary, k, found), kinds)))
+    # the recursion's own trip level (already bisected by runtime_shapes for most)
+    missing = [r for r in rts if not measured.get(r, {}).get("levels_at_trip")]
+    trip = {r: measured[r]["levels_at_trip"] for r in rts if r not in missing}
+    trip.update(zip(missing, pmap(lambda r: trip_level(binary, S.RT[r]["src"]), missing)))
+    skipped = [r for r in rts if not trip.get(r)]
+    rts = [r for r in rts if trip.get(r)]
+    if not rts or not any(fm.values()):
+        raise MachineryError(f"composite shapes ({prof}): no recursion trip level / no tower height could be measured: "
+                             f"{trip} {fm}")
+    # thorough: the full sweep at full height for every recursion shape (42), half height in its upper half.  quick: the full sweep at full height for the first
+    # recursion shape (debug: also half-height towers in the upper half of the sweep, and the large environment);
+    # a few points at full height for the other shapes (what a recursion contributes is the stack it has used; the
+    # others guard against an interaction with a particular construct); expression towers with the first shape only
+    jobs = []
+    for ri, r in enumerate(rts):
+        for k in kinds:
+            if not fm[k]:
+                continue
+            expr = S.TOWERS[k]["expr"]
+            if not full and expr and ri > 0:
+                continue
+            if full:
+                # (a half-height tower in the lower half of the sweep is the least demanding case: first shape only)
+                fr_hi = COMP_FRACTIONS
+                fr_half = COMP_FRACTIONS if ri == 0 else [f for f in COMP_FRACTIONS if f >= .5]
+            elif ri == 0:
+                fr_hi = COMP_FRACTIONS[1::2] if expr else COMP_FRACTIONS
+                fr_half = [f for f in COMP_FRACTIONS if f >= .5] if prof == "debug" and not expr else []
+            else:
+                fr_hi, fr_half = (COMP_ENV_FRACTIONS if prof == "debug" else COMP_ENV_FRACTIONS[1::2]), []
+            jobs += [(r, k, int(trip[r] * f), fm[k], "default") for f in fr_hi]
+            jobs += [(r, k, int(trip[r] * f), fm[k] // 2, "default") for f in fr_half]
+            if not expr and (full or (ri == 0 and prof == "debug")):
+                jobs += [(r, k, int(trip[r] * f), fm[k], "large") for f in COMP_ENV_FRACTIONS]
+
+    def job(a):
+        r, k, d, n, env = a
+        return run_src(binary, S.composite(r, k, d, n), env=env)[0]
+
+    outs = pmap(job, jobs)
+    pat, tally, bad = {}, {}, list(found)
+    for a, o in zip(jobs, outs):
+        r, k, d, n, env = a
+        ck.evaluations += 1
+        tally[o] = tally.get(o, 0) + 1
+        key = f"{r}+{k}@{n}" + ("" if env == "default" else "+env")
+        pat[key] = pat.get(key, "") + _PAT.get(o, "d" if o.startswith("diag:") else "?")
+        if o in ("ok", SOE):
+            ck.nontrivial_case(f"{prof}:comp:{a}")
+        if o == CRASH:
+            bad.append(a)
+        elif o != "ok" and o != SOE and not o.startswith("diag:"):
+            ck.notes.append(f"composite {a} ({prof}): inconclusive outcome {o}")
+    for o, c in tally.items():
+        ck.count(f"comp_{prof}_{o}", c)
+    # one report per tower kind: the first crashing case (recursion of the tier's list order, lowest depth first)
+    by_kind = {}
+    for a in bad:
+        by_kind.setdefault(a[1], []).append(a)
+    for k, cases in by_kind.items():
+        for a in cases[:3]:
+            r, _k, d, n, env = a
+            src = S.composite(r, k, d, n)
+            outs3 = [CRASH] + [run_src(binary, src, env=env, fresh=True)[0] for _ in range(2)]
+            if outs3.count(CRASH) < 3:
+                continue
+            stage = "runtime"
+            for cut in ("parser", "resolver"):
+                if run_src(binary, S.stage_cut(src, cut), env=env)[0] == CRASH:
+                    stage = cut
+                    break
+            alone_rec = run_src(binary, S.composite(r, k, d, 0), env=env)[0]
+            alone_tower = run_src(binary, S.composite(r, k, 0, n), env=env)[0]
+            crashes.append({
+                "signature": {"defect": "C08-composite", "stage": stage, "construct": "tower:" + k},
+                "shape": f"composite:{r}+{k}", "depth": d, "profile": prof, "env": env, "outcomes": outs3,
+                "generator": "c08_shapes.composite", "params": {"rt_name": r, "kind": k, "d": d, "n": n},
+                "program_head": src[:700] + f" ... ({len(src)} bytes)",
+                "also_crashing": [list(x) for x in cases if x != a][:12],
+                "what": f"recursion `{r}` driven to level {d} (it trips the probe alone at {trip.get(r)}), then a {n}-level tower "
+                        f"of `{S.TOWERS[k]['open'].strip()}` (front end accepts {fm.get(k)}): native stack overflow in the {stage} "
+                        f"({prof}, {env} environment); the recursion alone at that level: {alone_rec}; the tower alone: {alone_tower}; "
+                        f"{len(cases)} of the swept cases of this tower kind crash"})
+            break
+    # stack need of half-height statement towers entered right below the budget line
+    budget_kib = budget_bytes() // 1024
+    r0 = rts[0]
+    need_jobs = [(r0, k, int(trip[r0] * COMP_FRACTIONS[-1]), fm[k] // 2) for k in kinds if fm[k] and not S.TOWERS[k]["expr"]
+                 and (full or prof == "debug")]
+
+    def need(a):
+        src = S.composite(*a)
+        return a, (min_stack(binary, src, budget_kib) if run_src(binary, src)[0] == SOE else None)
+
+    for a, kib in pmap(need, need_jobs):
+        ck.evaluations += 10
+        if kib:
+            measured[f"comp:{a[0]}+{a[1]}@{a[3]}"] = {"min_stack_kib": kib, "unbounded": SOE, "small": "ok"}
+    if skipped:
+        ck.notes.append(f"composite shapes ({prof}): no trip level for {skipped} (running time not linear in the limit)")
+    return {"tower_height_accepted": fm, "recursion_trip_level": trip, "runs": len(jobs), "outcomes": tally,
+            "patterns": pat if ck.tier == "quick" or bad else {k: v for k, v in pat.items() if k.split("+")[0] in COMP_RT_QUICK},
+            "legend": "per case `recursion+tower@height`: one character per swept recursion depth (COMP_FRACTIONS of the trip "
+                      "level): . normal end, S Stack overflow error, d diagnostic, X native overflow, T timeout"}
 
 
 # ------------------------------------------------------------------------------------------------
@@ -766,7 +976,25 @@ def replay(ck, data):
     """Re-run the recorded program three times on the real binary (and the recorded request lines, if
     any, through harness and model)."""
     rc = 0
-    if data.get("shape") in S.ALL:
+    if data.get("generator") == "c08_shapes.composite":
+        prof = data.get("profile", "debug")
+        binary = ck.build_cli(prof)
+        pr = data["params"]
+        env = data.get("env", "default")
+        src = S.composite(pr["rt_name"], pr["kind"], pr["d"], pr["n"])
+        outs = [run_src(binary, src, cpu_s=240, fresh=True, env=env)[0] for _ in range(3)]
+        print(f"program: c08_shapes.composite(rt_name={pr['rt_name']!r}, kind={pr['kind']!r}, d={pr['d']}, n={pr['n']})  "
+              f"[{len(src)} bytes; python3 -c \"import sys; sys.path.insert(0, 'checks'); import c08_shapes as S; "
+              f"print(S.composite({pr['rt_name']!r}, {pr['kind']!r}, {pr['d']}, {pr['n']}))\" > crash.ns]")
+        print(f"profile={prof} env={env} implementation outcomes (8 MiB stack): {outs}")
+        print(f"  the recursion alone (tower of height 0): {run_src(binary, S.composite(pr['rt_name'], pr['kind'], pr['d'], 0), env=env)[0]}"
+              f"; the tower alone (recursion depth 0): {run_src(binary, S.composite(pr['rt_name'], pr['kind'], 0, pr['n']), env=env)[0]}")
+        print("model: runtime_depth_bound -- every cycle of the evaluator passes a probe (exec_stmt descends into a nested "
+              "block only after a probe on every path: exec_stmt_descents_probed_on_every_path)")
+        print("oracle: outcome must be `ok`, a diagnostic or `stack-overflow-error`; never native-overflow")
+        if CRASH in outs:
+            rc = 1
+    elif data.get("shape") in S.ALL:
         prof = data.get("profile", "debug")
         binary = ck.build_cli(prof)
         sh_ = S.ALL[data["shape"]]
